@@ -131,6 +131,8 @@ type ZipOpts struct {
 	QuoteAll bool
 	// BlankLines: empty lines are sprinkled between records (CSV readers skip them)
 	BlankLines int // out of 8 per record
+	// Comment: the archive comment (stored after the end-of-central-directory record)
+	Comment string
 }
 
 // Zip serialises the feed.
@@ -158,6 +160,9 @@ func (f *Feed) Zip(o ZipOpts) []byte {
 			body = bytes.TrimRight(body, "\r\n")
 		}
 		w.Write(body)
+	}
+	if o.Comment != "" {
+		zw.SetComment(o.Comment)
 	}
 	if err := zw.Close(); err != nil {
 		panic("harness: zip: " + err.Error())
@@ -195,6 +200,7 @@ type StaticCfg struct {
 	Interleave                                                                                               bool // stop_times of different trips interleaved
 	BlankAgencyID                                                                                            bool // single agency + routes without agency_id
 	IDStyle                                                                                                  int  // 0 prefixed (s0, r1), 1 numeric (101, 102), 2 dictionary words incl. pairs that collide under common 32-bit hashes
+	AgencyIDCellBlank                                                                                        bool // with BlankAgencyID: the single agency's own agency_id cell is empty
 }
 
 func DrawStaticCfg(t *sim.T, big bool) StaticCfg {
@@ -238,6 +244,10 @@ func DrawStaticCfg(t *sim.T, big bool) StaticCfg {
 		c.BlankAgencyID = t.Chance(1, 2)
 	}
 	c.IDStyle = t.Weighted(6, 2, 1)
+	c.AgencyIDCellBlank = c.BlankAgencyID && t.Chance(1, 3)
+	if t.Chance(1, 12) {
+		c.StopTimesPerTrip = t.Range(30, 70) // long trips (dozens of stop times each)
+	}
 	return c
 }
 
@@ -353,13 +363,15 @@ type StaticModel struct {
 func name(t *sim.T, c StaticCfg, base string, i int) string {
 	s := fmt.Sprintf("%s %d", base, i)
 	if c.Quoting {
-		switch t.Choose(5) {
+		switch t.Choose(6) {
 		case 1:
 			s = fmt.Sprintf("%s, the \"%d\"th", base, i)
 		case 2:
 			s = fmt.Sprintf("%s\nline %d", base, i)
 		case 3:
 			s = fmt.Sprintf(" %s %d ", base, i)
+		case 4:
+			s = fmt.Sprintf("Caf\xe9 %s %d \x80", base, i) // bytes that are not valid UTF-8 (a Latin-1 export)
 		}
 	}
 	return s
@@ -377,6 +389,10 @@ func GenStatic(t *sim.T, c StaticCfg) *StaticModel {
 		for i := 0; i < c.Agencies; i++ {
 			id := entityID(c.IDStyle, "ag", i, 1)
 			m.AgencyIDs = append(m.AgencyIDs, id)
+			if c.BlankAgencyID && c.AgencyIDCellBlank {
+				id = "" // a single agency may leave its id blank; routes then leave agency_id blank too
+				m.AgencyIDs[len(m.AgencyIDs)-1] = ""
+			}
 			rows = append(rows, []string{id, name(t, c, "Agency", i), fmt.Sprintf("http://a%d.example", i), tzPool[t.Choose(len(tzPool))], "en", "555-01" + fmt.Sprint(i), "http://fare.example", "a@example.com"})
 		}
 		cols := []colSpec{{"agency_id", true}, {"agency_name", true}, {"agency_url", true}, {"agency_timezone", true}, {"agency_lang", false}, {"agency_phone", false}, {"agency_fare_url", false}, {"agency_email", false}}
@@ -579,6 +595,9 @@ func DrawZipOpts(t *sim.T, n int) ZipOpts {
 		for i := 0; i < n; i++ {
 			o.BOMs = append(o.BOMs, t.Chance(1, 2))
 		}
+	}
+	if t.Chance(1, 6) {
+		o.Comment = "feed exported " + strings.Repeat("x", t.Choose(60))
 	}
 	mode := t.Choose(3) // all store, all deflate, mixed
 	for i := 0; i < n; i++ {
